@@ -2052,7 +2052,10 @@ impl<'a, 'options> ModuleGraphErrorIterator<'a, 'options> {
           ))
         } else if matches!(referrer_scheme, "https" | "http")
           && matches!(specifier_scheme, "file")
-          && specifier_text.to_lowercase().starts_with("file://")
+          && specifier_text
+            .trim_start()
+            .to_lowercase()
+            .starts_with("file:")
         {
           Some(ModuleGraphError::for_resolution_kind(
             kind,
